@@ -74,16 +74,20 @@ func (r *Eval) run(ctx context.Context) (ret Object, err error) {
 	// canceled for any reason before run, so use two selects.
 	select {
 	case <-ctx.Done():
+		verifSync(r.VM, "eval.abort.early")
 		r.VM.Abort()
 		err = ctx.Err()
 	default:
+		verifSync(r.VM, "eval.spawn")
 		go func() {
 			defer close(doneCh)
+			verifSync(r.VM, "eval.go")
 			ret, err = r.VM.Run(r.Globals, r.Locals...)
 		}()
 
 		select {
 		case <-ctx.Done():
+			verifSync(r.VM, "eval.abort")
 			r.VM.Abort()
 			<-doneCh
 			if err == nil {
